@@ -94,6 +94,7 @@ def child_main(db, logpath, crash_at, scenario, seed, slow=False):
             scenario = scenario[:-4]
         store = SqliteDataStore(problem, database_name=db, thread_safe=False) if nts else SqliteDataStore(problem, database_name=db)
         real_sync = store.sync_individual
+        objs = {}
 
         def sync_individual(ind):
             state["in_sync"] = state.get("in_sync", 0) + 1
@@ -102,7 +103,9 @@ def child_main(db, logpath, crash_at, scenario, seed, slow=False):
             finally:
                 state["in_sync"] -= 1
             with lock:
-                log({"ev": "syncret", "id": int(ind.id), "vector": [float(v) for v in ind.vector], "costs": [float(c) for c in ind.costs]})
+                serial = objs.setdefault(id(ind), (len(objs) + 1, ind))[0]        # which design OBJECT this was (kept alive: id() stays unique)
+                log({"ev": "syncret", "id": int(ind.id), "obj": serial, "vector": [float(v) for v in ind.vector],
+                     "costs": [float(c) for c in ind.costs]})
         store.sync_individual = sync_individual
         problem.data_store = store
         log({"ev": "created"})
@@ -126,6 +129,23 @@ def child_main(db, logpath, crash_at, scenario, seed, slow=False):
             for i in inds:
                 problem.individuals.append(i)
             alg.evaluate(inds)
+            store.sync_all()
+        elif scenario == "monitored":
+            # a run that is looked at while it is going on: after the first batch (evaluated, hence stored, in an order that is not the id
+            # order) the same process opens a read-mode view of the file -- a progress plot -- and then goes on with new designs
+            from artap.algorithm import DummyAlgorithm
+            from artap.problem import ProblemViewDataStore
+            alg = DummyAlgorithm(problem)
+            alg.options['max_processes'] = 1
+            first = [Individual([round(rng.uniform(-5, 5), 6), round(rng.uniform(-5, 5), 6)]) for _ in range(3)]
+            for i in first:
+                problem.individuals.append(i)
+            alg.evaluate(list(reversed(first)))
+            ProblemViewDataStore(database_name=db)
+            second = [Individual([round(rng.uniform(-5, 5), 6), round(rng.uniform(-5, 5), 6)]) for _ in range(3)]
+            for i in second:
+                problem.individuals.append(i)
+            alg.evaluate(second)
             store.sync_all()
         elif scenario == "bulk":
             # many large individuals, annotated after their evaluation and written again by one sync_all (one big transaction)
